@@ -13,6 +13,9 @@ use tree_sitter::Language;
 use tree_sitter_generate::{generate_parser_in_directory, OptLevel};
 use tsv_harness::*;
 
+#[path = "c16_flatten.rs"]
+mod c16_flatten;
+
 struct Lang {
     id: String,
     spec: String,
@@ -42,6 +45,27 @@ fn build(work: &Path, id: &str, spec: &str, grammar_json: &str, scanner: Option<
     let _ = std::fs::remove_dir_all(&dir);
     writeln!(ops, "spec L-{id} {spec} @").unwrap();
     writeln!(ops, "nodetypes {id} {}", hex(node_types.as_bytes())).unwrap();
+    // the grammar's productions for the derivation model (Closed is evaluated on the real node-types file)
+    match c16_flatten::flatten(grammar_json) {
+        Ok(f) => {
+            let hx = |s: &str| if s.is_empty() { "-".to_string() } else { hex(s.as_bytes()) };
+            for (i, (is_rule, var, vis, name)) in f.syms.iter().enumerate() {
+                writeln!(ops, "gsym {id} {i} {} {var} {vis} {}", if *is_rule { 'R' } else { 'T' }, hx(name)).unwrap();
+            }
+            for (v, ps) in f.prods.iter().enumerate() {
+                for p in ps {
+                    let steps: Vec<String> = p.iter().map(|(s, fld, al)| format!("{s},{},{},{}", fld.as_deref().map(hx).unwrap_or("-".into()),
+                        al.as_ref().map(|a| if a.1 { "n" } else { "a" }).unwrap_or("-"), al.as_ref().map(|a| hx(&a.0)).unwrap_or("-".into()))).collect();
+                    writeln!(ops, "gprod {id} {v} {}", if steps.is_empty() { "-".to_string() } else { steps.join(";") }).unwrap();
+                }
+            }
+            let list = |v: &Vec<usize>| if v.is_empty() { "-".to_string() } else { v.iter().map(|r| r.to_string()).collect::<Vec<_>>().join(",") };
+            writeln!(ops, "ginl {id} {}", list(&f.inl)).unwrap();
+            writeln!(ops, "gextra {id} {}", list(&f.extras)).unwrap();
+            writeln!(ops, "gend {id} {}", f.roots.iter().map(|r| r.to_string()).collect::<Vec<_>>().join(",")).unwrap();
+        }
+        Err(e) => { writeln!(ops, "gskip {id} {}", e.replace(' ', "_")).unwrap(); }
+    }
     writeln!(list, "lang {id} {} tree_sitter_{name} 0", libdir.join("lang.so").display()).unwrap();
     ops.flush().unwrap();
     list.flush().unwrap();
